@@ -99,6 +99,31 @@ def generate(rng, tier):
         pairs = rng.sample(pairs, len(pairs) // 16)
     cases = []
     dist = {"exact_values": len(ex), "float_values": len(fl), "pairs": len(pairs), "exhaustive_pairs": tier == "thorough"}
+    # Rationals closer to each other than a double can resolve (Farey neighbours a/b, c/d
+    # with b*d > 2^53): an ordering computed through f64 conflates them.  Never sub-sampled.
+    M = L.I32_MAX
+    close = []
+    for k in [M - 2, M - 3, M - 1000, 2**30 + 1, 3037000500 % M, rng.randint(2**27, M - 2), rng.randint(2**27, M - 2)]:
+        close.append((Fraction(k, k + 1), Fraction(k + 1, k + 2)))      # near 1
+        close.append((Fraction(1, k + 1), Fraction(1, k)))              # near 0
+        close.append((Fraction(-(k + 1), k + 2), Fraction(-k, k + 1)))  # negative
+    for _ in range(12):
+        b = rng.randint(2**27, M - 1); d = b + 1                        # consecutive denominators: a*d - b*c = 1
+        a = rng.randint(1, b - 1)
+        c = (a * d + 1) // b if (a * d + 1) % b == 0 else None
+        if c is None:
+            c = a + 1 if Fraction(a + 1, d) > Fraction(a, b) else a
+        if 0 < c <= M and Fraction(c, d) != Fraction(a, b):
+            lo, hi = sorted([Fraction(a, b), Fraction(c, d)])
+            if hi.numerator <= M and hi.denominator <= M and lo.numerator <= M and lo.denominator <= M:
+                close.append((lo, hi))
+    close_pairs = []
+    for lo, hi in close:
+        for x in L.reprs_of(lo):
+            for y in L.reprs_of(hi):
+                close_pairs += [(x, y), (y, x)]
+    dist["close_rational_pairs"] = len(close_pairs)
+    pairs = list(pairs) + close_pairs
     for a, b in pairs:
         ea, eb = L.enc(a), L.enc(b)
         cases.append([15] + ea + eb)
